@@ -50,15 +50,29 @@ def gen_axes(rng, c, nmaps, prof):
     naxes = rng.choice(prof.get("naxes", [0, 0, 1, 2, 3]))
     kinds = prof.get("akinds", ["cc", "cc", "pitch_bend", "key", "action"])
     used_cc = set()
+    shapes = {}
     for i in range(naxes):
         code = i  # ABS_X.. small codes
         node = rng.choice(["event3", "event3", "event4"])
         sub = rng.choice(SUBS)
         shape = rng.choice(["s8", "u8", "hat", "s16", "u16", "asym"])
+        twin = None
+        if axes and rng.random() < prof.get("twin_axis_p", 0.3):
+            # the same ABS code on another handler of the device (main handler / named sub-handler): the two axes
+            # must not share any state (last transmitted value, key-emulation tracker entries are per code, though)
+            twin = rng.choice(axes)
+            if not any(a is not twin and a["code"] == twin["code"] for a in axes):
+                code = twin["code"]
+                sub = "s1" if twin["sub"] == "-" else "-"
+                node = {"event3": "event4", "event4": "event3"}.get(twin["node"], "event3")
+                shape = shapes[id(twin)]
+            else:
+                twin = None
         mn, mx = {"s8": (-128, 127), "u8": (0, 255), "hat": (-1, 1), "s16": (-32768, 32767),
                   "u16": (0, 65535), "asym": (-100, 300)}[shape]
         c.cfg.append("cfg.axis %s %d %d %d" % (node, code, mn, mx))
         ax = {"code": code, "node": node, "sub": sub, "min": mn, "max": mx, "maps": {}}
+        shapes[id(ax)] = shape
         for mi in range(nmaps):
             if rng.random() < prof.get("axis_unmapped_p", 0.15):
                 continue
@@ -238,6 +252,33 @@ def gen_history(rng, c, prof):
             val = 1
             down.add(code)
         ev.append("key %s %d %d" % (sub, code, val))
+    # directed: a panic pressed and released while another action key (or a note key) is held, then the partner of that
+    # action / another note — what was held across the panic must still count as held afterwards
+    inv = {a: k for k, a in act_keys.items()}
+    if "panic" in inv and rng.random() < prof.get("panic_across_held_p", 0.0) and inv["panic"] not in exitseq:
+        pairs = [(u, d_) for u, d_ in (("octave_up", "octave_down"), ("semitone_up", "semitone_down"), ("channel_up", "channel_down"),
+                                       ("mapping_up", "mapping_down")) if u in inv and d_ in inv]
+        pk = inv["panic"]
+        if pk not in down:
+            seq = []
+            if pairs:
+                u, d_ = rng.choice(pairs)
+                if rng.random() < 0.5:
+                    u, d_ = d_, u
+                ku, kd = inv[u], inv[d_]
+                if ku not in down and kd not in down and ku not in exitseq and kd not in exitseq:
+                    for _ in range(rng.choice([0, 1, 2])):
+                        seq += ["key - %d 1" % ku, "key - %d 0" % ku]
+                    seq += ["key - %d 1" % ku, "key - %d 1" % pk, "key - %d 0" % pk, "key - %d 1" % kd, "key - %d 0" % kd, "key - %d 0" % ku]
+            if "cc_learning" in inv and rng.random() < 0.5 and inv["cc_learning"] not in down:
+                kl = inv["cc_learning"]
+                seq += ["key - %d 1" % kl, "key - %d 1" % pk, "key - %d 0" % pk, "key - %d 0" % kl]
+            if codes_n:
+                kn = rng.choice(codes_n)
+                if kn not in down:
+                    sub = sorted(note_keys.get(kn, {"-"}))[0]
+                    seq += ["key %s %d 1" % (sub, kn), "key %s %d 0" % (sub, kn)]
+            ev += seq
     if rng.random() < prof.get("release_all_p", 0.5):
         for code in sorted(down):
             subs = sorted(note_keys.get(code, {"-"}))
